@@ -282,9 +282,34 @@ pub fn run(opts: &Opts) -> i32 {
             ("labels-control", "begin\n    let T1 = (a :: Int64) * (b :: Int64) that\n    let T2 = (a :: Int64) * (b :: Int64) that\n    let v : T1 = (a = (1 : Int64), b = (2 : Int64)) that\n    let show = { fn (r : T2) => ! (process/exit) r/a } that\n    ! show v\n  end", true),
             ("named-value-at-another-label", "begin\n    let T1 = (a :: Int64) * (b :: Int64) that\n    let v : T1 = (a = (1 : Int64), c = (2 : Int64)) that\n    ! (process/exit) v/a\n  end", false),
             ("named-values-exchanged", "begin\n    let T1 = (a :: Int64) * (b :: String) that\n    let v : T1 = (b = \"s\", a = (1 : Int64)) that\n    ! (process/exit) v/a\n  end", false),
+            // a catch-all arm binds the scrutinee at its own (sealed) type
+            ("variable-arm-at-a-sealed-type", "begin\n    def ZL : VType = data | +Nil : Unit | +Cons : Int64 * ZL end that\n    def ! len (xs : ZL) : Ret Int64 = match xs | +Nil() => ret (0 : Int64) | +Cons(_, _) => ret (1 : Int64) end that\n    let xs : ZL = +Cons((1 : Int64), +Nil()) in\n    match xs | ys => do r <- ! len ys; ! (process/exit) r end\n  end", true),
+            ("variable-arm-after-a-constructor-arm-at-a-sealed-type", "begin\n    def ZL : VType = data | +Nil : Unit | +Cons : Int64 * ZL end that\n    def ! len (xs : ZL) : Ret Int64 = match xs | +Nil() => ret (0 : Int64) | +Cons(_, _) => ret (1 : Int64) end that\n    let xs : ZL = +Cons((1 : Int64), +Nil()) in\n    match xs | +Nil() => ! (process/exit) (9 : Int64) | ys => do r <- ! len ys; ! (process/exit) r end\n  end", true),
+            ("variable-arm-used-at-the-representation", "begin\n    def ZL : VType = data | +Nil : Unit | +Cons : Int64 * ZL end that\n    let xs : ZL = +Cons((1 : Int64), +Nil()) in\n    let use = { fn (r : data | +Nil : Unit | +Cons : Int64 * ZL end) => ! (process/exit) (0 : Int64) } in\n    match xs | ys => ! use ys end\n  end", false),
             ("constructor-argument-control", "begin\n    let Zb = data | +Box : Int64 end that\n    let v = (+Box((3 : Int64)) : Zb) in\n    ! (process/exit) (0 : Int64)\n  end", true),
         ] {
             probes.push((name.to_string(), format!("{pre}begin\n  {body}\nend\n"), ok));
+        }
+        // literals are checked against the expected type with no implicit conversion: every kind of
+        // literal at every primitive type, in four checking positions
+        {
+            let lits = [("integer", "7"), ("decimal", "1.5"), ("string", "\"s\""), ("character", "'c'")];
+            let types = [("Int8", "integer"), ("Int16", "integer"), ("Int32", "integer"), ("Int64", "integer"), ("UInt8", "integer"), ("UInt16", "integer"), ("UInt32", "integer"), ("UInt64", "integer"), ("Float32", "decimal"), ("Float64", "decimal"), ("String", "string"), ("Char", "character")];
+            for (ty, kind) in types {
+                for (lk, lit) in lits {
+                    // an integer literal is also a float literal? take what the unchanged rule says:
+                    // only the literal's own kind is accepted at a type of that kind
+                    let ok = lk == kind;
+                    for (pos, body) in [
+                        ("annotation", format!("let v : {ty} = {lit} in\n  ! (process/exit) (0 : Int64)")),
+                        ("argument", format!("let g = {{ fn (x : {ty}) => ret () }} in\n  do u <- ! g {lit};\n  ! (process/exit) (0 : Int64)")),
+                        ("constructor-payload", format!("begin\n    let Zb = data | +Box : {ty} end that\n    let v = (+Box({lit}) : Zb) in\n    ! (process/exit) (0 : Int64)\n  end")),
+                        ("returned", format!("let g : Thk (Ret {ty}) = {{ ret {lit} }} in\n  do u <- ! g;\n  ! (process/exit) (0 : Int64)")),
+                    ] {
+                        probes.push((format!("literal {lk} at {ty} in {pos}"), format!("{pre}begin\n  {body}\nend\n"), ok));
+                    }
+                }
+            }
         }
         // an existential witness must not leave the scope of the pattern that opened its package,
         // wherever in a tuple pattern the package sits
